@@ -109,6 +109,34 @@ func grammatical(t *rapid.T) string {
 		}
 		return b.String()
 	}
+	if gen.Pick(t, 700, "hugemant") == 1 {
+		// a mantissa of about 100000 digits whose value is nevertheless well inside the
+		// limits: the point (or a negative exponent) compensates for the length
+		il := []int{0, 1, 2, 50000, 100001}[gen.Pick(t, 5, "hil")]
+		fl := 100000 - il + rapid.IntRange(-2, 2).Draw(t, "hfl")
+		if gen.Pick(t, 3, "hfull") == 0 {
+			fl = 100000 + rapid.IntRange(-2, 2).Draw(t, "hfl2")
+		}
+		if fl < 0 {
+			fl = 0
+		}
+		lead := "1"
+		if gen.Pick(t, 3, "hlead0") == 0 {
+			lead = "0"
+		}
+		if il > 0 {
+			b.WriteString(lead + strings.Repeat("7", il-1))
+		}
+		b.WriteByte('.')
+		b.WriteString(strings.Repeat("3", fl))
+		if w := rapid.IntRange(-3, 3).Draw(t, "hexp"); w != 0 || rapid.Bool().Draw(t, "hexp0") {
+			fmt.Fprintf(&b, "E%d", w)
+		}
+		if il == 0 && fl == 0 {
+			return "1"
+		}
+		return b.String()
+	}
 	ip := ""
 	if gen.Pick(t, 6, "noint") != 0 {
 		ip = strings.Repeat("0", gen.Pick(t, 4, "lead0")*gen.Pick(t, 2, "lead0b")) + gen.Digits(t, 25, "int")
